@@ -119,6 +119,18 @@ type Scenario struct {
 	// on every update).
 	Target string `json:"target,omitempty"`
 	Values []Val  `json:"values"`
+
+	// Shape names the layout the "shapes" part generated the configuration
+	// from (informational; the values above are the whole configuration).
+	Shape string `json:"shape,omitempty"`
+	// Split, if in 1..len(Values)-1, asks for one more generator: built by
+	// queue.New from the first Split values, the others handed to
+	// UpdateQueue.Add before the first Next. It is judged by the same trace
+	// predicates.
+	Split int `json:"split,omitempty"`
+	// Agent asks for the configuration to be served by a real fake Agent
+	// (fake/gnmi.New, gRPC on loopback, outside the bubble) as well.
+	Agent bool `json:"agent,omitempty"`
 }
 
 func pathOf(i int) []string { return []string{"c20", "v" + strconv.Itoa(i)} }
